@@ -209,6 +209,16 @@ int main(int argc, char **argv)
         ascon_random_free(&rs); ascon_random_free(0);
     }
     hx_stat("histories", nhist); hx_stat("runs", nruns);
+    if (lo == 0) {
+        /* many small calls: 6000 fetches of 1..13 bytes on one generator; a fetch draws system entropy exactly when 16384 bytes have been produced since the last draw */
+        ascon_random_state_t rs; uint8_t b[16]; unsigned long produced = 0, reseeds = 0; sysrand_reset(hx_seed); sysrand_fail_mask = 0; ascon_random_init(&rs);
+        for (int i = 0; i < 6000; i++) {
+            unsigned n = 1 + (unsigned)(i * 7) % 13, before = sysrand_calls; ascon_random_fetch(&rs, b, n); unsigned made = sysrand_calls - before, want = produced >= LIMIT ? 1 : 0;
+            if (made != want) { hx_fail("prng:reseed-trigger", "long run: fetch #%d of %u bytes made %u system-source calls with %lu bytes produced since the last reseed (expected %u)", i, n, made, produced, want); break; }
+            if (want) { produced = 0; reseeds++; } produced += n; nruns++;
+        }
+        ascon_random_free(&rs); if (reseeds < 2) hx_fail("prng:reseed-trigger", "long run: only %lu automatic reseeds in 6000 fetches", reseeds);
+    }
     hx_sample("PRNG: every history of depth <= %d starting with alphabet entries [%d,%d) over {fetch,feed x sizes 0,1,7,8,9,32,16383,16384,16385; reseed; save; load; free+init} x every subset of failing entropy calls x storage answers", DEPTH, lo, hi);
     hx_finish();
     return 0;
